@@ -159,8 +159,7 @@ def rule_c(ctx: Ctx) -> None:
                 'test and behind no other test (edge-cut reachability).')
 
 
-def rule_d(ctx: Ctx) -> None:
-    rule = 'C15.d'
+def rule_d(ctx: Ctx, rule: str = 'C15.d') -> None:
     f = ctx.idx.func(f'{MODELS}.check_model')
     g = cfg_of(ctx, f)
     inner = _memory_loop(g)
@@ -200,7 +199,7 @@ def rule_d(ctx: Ctx) -> None:
         last = [r for r in upa if r.ast.lineno > dp[0][0].lineno]
         ok = bool(last) and all(iteration_requires(g, inner, r, {(dp[0][0], 'F')}) for r in last)
         ctx.ob(rule, 'check_model: the UPA report is behind a failed separation test', f.loc(dp[0][1]), ok, '', key='check_model|upa-behind-separation')
-    ctx.explain('C15.d: within one iteration of the inner loop the overlap/UPA reports are reachable only through the False edges of both '
+    ctx.explain(f'{rule}: within one iteration of the inner loop the overlap/UPA reports are reachable only through the False edges of both '
                 'wildcard-versus-element tests; the True edges lead to add_precedence(element, group) on the wildcard.')
 
 
